@@ -16,6 +16,9 @@ META = {
 }
 # package C07t (trace replay for the dynamic terminal manager): coq/Mgr/ConcTermLog.v, ConcTermLogProofs.v, theorems C07_term_log_*
 META["level_text"] += " C07t (C07_term_log_*, 18 theorems over coq/Mgr/ConcTermLog.v): ystep = the projection of xstep to what the terminal manager hooks log (terminal table id |-> value hash and count, free chain, collector phase, reference count increments owed per thread after a `found` / cache hit / iterator item); it accepts the log xlabs of every action of every holder and of the collector in every state satisfying XInv and ends in the projection of the next state (log_sim), hence the log of every schedule from a new manager of any capacity (log_trace_sim, log_reachable_accepted, log_init); whatever it accepts keeps ids and values pairwise distinct and the free chain disjoint (log_inv, log_run_inv, log_inv_checker); it accepts the scan and a removal only in the sweep phase and a removal only for a stored terminal without counted edge (log_scan, log_free), a `found` only of the id holding the value, a new id only if it heads the free chain, is unused and the value is not stored (log_found, log_new), a decrement and an unannounced increment only with a counted edge (log_retain, log_release); the snapshot comparison ymatch_b accepts every state of the model (log_match_proj) and a replayed table that passes it makes up, with the snapshot's handles and child edges as tokens, a state satisfying XInv (log_match_lift); log_example (a log through every label), log_refused (the logs of seeded C07e - terminal collection after post_gc began -, of a removal of a counted terminal, a `found` of a collected slot, a new id in use, a second slot for a value, clone / release without a counted edge and an iterator item without its increment are refused). Tie: the MTBDD cases m* carry tt=1: the harness logs the terminal manager's events for the whole case (inside the blocks in one total order with the table and cache events), ocaml/c07_main.ml replays them from Model.yinit on with the extracted ystep: every found / new decision, every count change, every removal and the phase of every terminal collection must be the model's (violation: prop=C07 inside a block, prop=C05 in the sequential parts), the replayed table replaces the 'terminal ids named by events count as stored' rule of C07m (so a get_or_insert child, a cache operand or value edge to a collected terminal is seen by the table / cache replay), and at every snapshot the replayed table must equal the lifted snapshot (ids, count = handles + child edges, slot |-> value against slot |-> hash); control logs corpus/C07/terminal-replay-controls.txt (n20..n28 rejected, p3 accepted) on every run."
+# package GCTHREAD (collector protocol of the index-based manager): coq/Mgr/GcThread*.v, theorems C07_gcthread_* (C05_gcthread_* in coq/Props/C05.v)
+META["level_text"] += " GCTHREAD (C07_gcthread_*, 8 theorems over coq/Mgr/GcThread.v: interleaving model of the collector thread, explicit gc() calls of application threads under the read or the write lock of the manager, gc_ongoing, the condition variable, handle drops; any number of threads, any schedule): in every reachable state at most one sweep is in progress over all threads, exactly when gc_ongoing is set (at_most_one_sweep); while the collector sweeps no application thread is inside a sweep and two application threads never are (coll_sweep_excludes_app, app_sweeps_exclusive); the sweeping collector holds the try-lock and a read lock, no writer exists (no reordering, no exclusive-lock gc) and gc_state is Triggered (coll_sweep_holds); an application thread sweeping under the read lock holds the try-lock and a read lock while no writer exists, under the write lock nobody else - the collector neither - is inside the manager (app_sweep_shared_holds, app_sweep_excl_holds); non-vacuity: a computed schedule through every action in which one thread sweeps while another thread and the collector fail to get gc_ongoing (example = all). Proof-only (the sweeps' mutual exclusion on the real code is what the C07 replay observes as non-overlapping collector phases); the trigger / reset / quit theorems and the observations on the real code are under C05 (checks/gcthreadcommon.py)."
+
 ALLOWED_AXIOMS = ()
 MODEL_VOS = ["Base/Conv.vo", "DD/Table.vo", "DD/TableExtra.vo", "Mgr/Conc.vo", "Mgr/ConcCache.vo", "Mgr/ConcTerm.vo", "Mgr/ConcTermLog.vo"]
 
